@@ -39,6 +39,7 @@ def run(ctx):
     rule_frets(ctx)
     rule_get_note(ctx)
     rule_fingering(ctx)
+    rule_fingers_needed(ctx)
     rule_chord_fingering(ctx)
     rule_best_fingering_notes(ctx)
     rule_search(ctx)
@@ -222,6 +223,41 @@ def rule_fingering(ctx):
         ctx.check(len(paths) == 1 and paths[0].value == [], R, "find_fingering[%s]" % label, f.where(), "find_fingering(%s)" % label, "gives %s" % [(p.kind, p.value) for p in paths])
 
 
+def _fingers(row):
+    """Fingers a fingering needs: one per fretted string, except that the index finger may bar the lowest fretted position
+    over the strings above (higher index than) the highest open string -- those cost one finger together."""
+    fretted = [x for x in row if x]
+    if not fretted:
+        return 0
+    lowest = min(fretted)
+    opens = [i for i, x in enumerate(row) if x == 0 and x is not None]
+    last_open = max(opens) if opens else -1
+    barred = [i for i, x in enumerate(row) if x is not None and i > last_open and x == lowest]
+    return len(fretted) - len(barred) + (1 if barred else 0)
+
+
+def rule_fingers_needed(ctx):
+    """fingers_needed never counts fewer fingers than the hand needs (it is the filter behind max_fingers); on rows
+    where every string is played it is exact."""
+    R = "R-C20-5"
+    repo = ctx.repo
+    fn = repo.mod(TU).func("fingers_needed")
+    rows = [[12, 11, 9, 9, 9, 0], [2, 0, 2, 2, 2, 2], [2, 2, 2, 2, 0, 3], [1, 3, 3, 2, 1, 1], [0, 2, 2, 1, 0, 0], [3, 2, 0, 0, 0, 3], [0, 0, 2, 2, 2, 0], [5, 7, 7, 6, 5, 5],
+            [0, 3, 2, 0, 1, 0], [2, 2, 0, 2], [0, 0, 0, 3], [2, 1, 2, 0], [7, 7, 7, 7], [None, 3, 2, 0, 1, 0], [None, None, 0, 2, 3, 2], [1, None, 2, 2, 2, None]]
+    bad = []
+    for row in rows:
+        try:
+            ps = explore(lambda ch: Interp(repo, ch), lambda it, row=row: it.call_function(fn, [list(row)], {}))
+        except CannotDecide as e:
+            raise AnalysisError("fingers_needed(%s): %s" % (row, e))
+        got = ps[0].value if len(ps) == 1 and ps[0].kind == "return" else None
+        want = _fingers(row)
+        if not isinstance(got, int) or got < want or (None not in row and got != want):
+            bad.append((row, got, want))
+    ctx.check(not bad, R, "fingers_needed", fn.where(), "fingers_needed on %d fingerings" % len(rows),
+              "%d are counted wrongly, e.g. fingers_needed(%s) == %r, the hand needs %s" % ((len(bad),) + bad[0] if bad else (0, "", "", "")))
+
+
 def rule_chord_fingering(ctx):
     """find_chord_fingering: every returned row has one entry per string, frets only where the string sounds a chord
     note, covers every chord note name, keeps the non-open frets within the span and the finger count within the limit.
@@ -285,8 +321,8 @@ def rule_chord_fingering(ctx):
                         bad = "does not contain %s" % sorted(set(names) - got_names)
                     elif bad is None and fretted and max(fretted) - min(fretted) >= maxd:
                         bad = "stretches over frets %d..%d, the limit is a span below %d" % (min(fretted), max(fretted), maxd)
-                    elif bad is None and not (isinstance(fg, int) and fg <= maxfing):
-                        bad = "needs %r fingers, the limit is %d" % (fg, maxfing)
+                    elif bad is None and _fingers(r) > maxfing:
+                        bad = "needs %d fingers (one per fretted string, the index finger barring the lowest fret on the strings above the last open one), the limit is %d; fingers_needed says %r" % (_fingers(r), maxfing, fg)
                 if bad:
                     ok, why = False, "returned fingering %s %s" % (r, bad)
                     break
